@@ -138,6 +138,7 @@ TOL_LAP = 2e-12
 TOL_SUM = 1e-12
 TOL_EXACT = 1e-14
 TOL_JIT = 1e-13
+TOL_VEC = 1e-14     # array call vs element-by-element scalar calls: ~45 ulp of the mode's magnitude (measured <= 2 ulp)
 FLOOR = 1e-11
 RATIO_3RD = 2.0 ** 2.5
 RATIO_2ND = 2.0 ** 1.5
@@ -169,7 +170,7 @@ IMPL = {
 }
 FAMILIES = {'simple': ['simple'], 'no_obl': ['nsr', 'nsr_modes'], 'med_obl': ['med', 'med_modes'],
             'gen_obl': ['gen', 'gen_modes'], 'low_e': ['low_e_modes']}
-KINDS = ['derivs', 'zero_obl', 'med_gen', 'sync', 'low_e']
+KINDS = ['derivs', 'zero_obl', 'med_gen', 'sync', 'low_e', 'array']
 SPINS = ['ratio', 'sync', 'anti', 'zero', 'three_half', 'double']
 COMP = ['U', 'Ut', 'Up', 'Utt', 'Upp', 'Utp']
 
@@ -246,9 +247,12 @@ def _call(impl, path, lon, col, tm, P, e=None, ob=None, static=None, o=None):
     static = P['static'] if static is None else static
     disp, pyf = _func(impl)
     npts = len(lon)
-    with repo_call('%s[%s]' % (IMPL[impl][0], path)):
+    e_arr = isinstance(e, np.ndarray)
+    ob_arr = isinstance(ob, np.ndarray)
+    with repo_call('%s[%s%s]' % (IMPL[impl][0], path, ',array e/obliquity' if (e_arr or ob_arr) else '')):
         if path == 'py_scalar':
-            outs = [pyf(*_args(impl, R, float(lon[i]), float(col[i]), float(tm[i]), n, o, e, ob, M, a, static))[2]
+            outs = [pyf(*_args(impl, R, float(lon[i]), float(col[i]), float(tm[i]), n, o, float(e[i]) if e_arr else e,
+                           float(ob[i]) if ob_arr else ob, M, a, static))[2]
                     for i in range(npts)]
             keys = list(outs[0].keys())
             res = {k: np.array([[float(out[k][j]) for out in outs] for j in range(6)]) for k in keys}
@@ -256,7 +260,9 @@ def _call(impl, path, lon, col, tm, P, e=None, ob=None, static=None, o=None):
             f = disp if path == 'jit' else pyf
             shp = (1, 1, npts) if path == 'jit' else (npts,)
             args = _args(impl, R, np.ascontiguousarray(lon.reshape(shp)), np.ascontiguousarray(col.reshape(shp)),
-                         np.ascontiguousarray(tm.reshape(shp)), n, o, e, ob, M, a, static)
+                         np.ascontiguousarray(tm.reshape(shp)), n, o,
+                         np.ascontiguousarray(e.reshape(shp)) if e_arr else e,
+                         np.ascontiguousarray(ob.reshape(shp)) if ob_arr else ob, M, a, static)
             r = _cache_safe(f, args)
             freqs, modes, tup = r
             res = {}
@@ -312,6 +318,11 @@ def in_domain(case):
             and 22.0 <= case['logM'] <= 31.0 and 7.5 <= case['loga'] <= 11.0 and 5.0 <= case['logR'] <= 8.0 \
             and isinstance(case['use_static'], bool) and 0.02 <= case['obl2'] <= 0.2 and 0.0 <= case['kappa'] <= 2.0 \
             and 0.01 <= case['e2'] <= 0.2 and (case.get('only') is None or case['only'] in IMPL)
+        if case['kind'] == 'array':
+            k = len(case['pts'])
+            ok = ok and len(case['evec']) == k and len(case['obvec']) == k and len(case['tauvec']) == k \
+                and all(x == 0.0 or E_MIN <= x <= 0.4 for x in case['evec']) \
+                and all(x == 0.0 or E_MIN <= x <= 1.6 for x in case['obvec']) and all(0.0 <= x <= 3.0 for x in case['tauvec'])
         return bool(ok)
     except Exception:
         return False
@@ -348,16 +359,28 @@ def _fill(d):
         else:
             th = r.u(COLAT_MIN, math.pi - COLAT_MIN)
         pts.append([th, r.u(0.0, 2 * math.pi)])
+    if d['kind'] == 'array':
+        # per-element eccentricity / obliquity / time (documented type FloatArray): Hypothesis chooses which elements are exact zeros
+        while len(pts) < len(d['vec']):
+            pts.append([r.u(COLAT_MIN, math.pi - COLAT_MIN), r.u(0.0, 2 * math.pi)])
+        pts = pts[:len(d['vec'])]
+    evec = [0.0 if v[0] == 'zero' else (r.u(E_MIN, 0.02) if v[0] == 'small' else r.u(E_MIN, 0.4)) for v in d['vec']]
+    obvec = [0.0 if v[1] == 'zero' else (r.u(E_MIN, 0.02) if v[1] == 'small' else r.u(E_MIN, 1.6)) for v in d['vec']]
+    tauvec = [0.0 if v[2] == 'zero' else r.u(0.0, 3.0) for v in d['vec']]
     e = {'u': r.u(E_MIN, 0.4), 'small': r.u(E_MIN, 0.02), 'zero': 0.0}[d['e_kind']]
     ob = {'u': r.u(E_MIN, 1.6), 'mid': r.u(E_MIN, 0.3), 'small': r.u(E_MIN, 0.01), 'zero': 0.0}[d['obl_kind']]
     return {'kind': d['kind'], 'family': d['family'], 'only': None, 'pts': pts, 'tau': r.u(0.0, 3.0), 'logn': r.u(-7.0, -3.5),
             'spin': d['spin'], 'ratio': r.u(-3.0, 3.0), 'e': e, 'obl': ob, 'logM': r.u(22.0, 31.0), 'loga': r.u(7.5, 11.0),
             'logR': r.u(5.0, 8.0), 'use_static': d['use_static'], 'path': d['path'], 'obl2': r.u(0.02, 0.2),
-            'kappa': 0.0 if d['pure_obliquity'] else r.u(0.2, 2.0), 'e2': r.u(0.01, 0.2)}
+            'kappa': 0.0 if d['pure_obliquity'] else r.u(0.2, 2.0), 'e2': r.u(0.01, 0.2),
+            'evec': evec if d['kind'] == 'array' else None, 'obvec': obvec if d['kind'] == 'array' else None,
+            'tauvec': tauvec if d['kind'] == 'array' else None}
 
 
 def strategy(tier):
-    kinds = ['derivs'] * 12 + ['zero_obl'] * 2 + ['med_gen'] * 2 + ['sync'] * 2 + ['low_e'] * 2
+    kinds = ['derivs'] * 10 + ['zero_obl'] * 2 + ['med_gen'] * 2 + ['sync'] * 2 + ['low_e'] * 2 + ['array'] * 4
+    elem = st.tuples(st.sampled_from(['u', 'u', 'small', 'zero', 'zero']), st.sampled_from(['u', 'u', 'small', 'zero', 'zero']),
+                     st.sampled_from(['u', 'u', 'u', 'zero'])).map(list)
     fams = ['simple', 'no_obl', 'no_obl', 'med_obl', 'med_obl', 'gen_obl', 'gen_obl', 'low_e', 'low_e']
     paths = ['py'] * 17 + ['py_scalar'] * 3 if tier == 'quick' else ['py'] * 15 + ['py_scalar'] * 3 + ['jit'] * 2
     return st.fixed_dictionaries({
@@ -368,6 +391,7 @@ def strategy(tier):
         'obl_kind': st.sampled_from(['u'] * 6 + ['mid'] * 2 + ['small', 'zero']),
         'use_static': st.booleans(), 'path': st.sampled_from(paths),
         'pure_obliquity': st.sampled_from([True, False, False, False]),
+        'vec': st.lists(elem, min_size=2, max_size=5),
         'salt': st.tuples(st.integers(0, 2 ** 48), st.floats(0.0, 1.0), st.integers(0, 1023)),
     }).map(_fill)
 
@@ -375,8 +399,11 @@ def strategy(tier):
 def _base(**kw):
     c = {'kind': 'derivs', 'family': 'no_obl', 'only': None, 'pts': [[1.1, 0.7], [2.4, 4.0], [0.06, 5.5]], 'tau': 0.77,
          'logn': -5.0, 'spin': 'ratio', 'ratio': 1.37, 'e': 0.23, 'obl': 0.41, 'logM': 27.0, 'loga': 8.7, 'logR': 6.2,
-         'use_static': False, 'path': 'py', 'obl2': 0.1, 'kappa': 1.0, 'e2': 0.1}
+         'use_static': False, 'path': 'py', 'obl2': 0.1, 'kappa': 1.0, 'e2': 0.1, 'evec': None, 'obvec': None, 'tauvec': None}
     c.update(kw)
+    if c['kind'] == 'array' and c['evec'] is None:
+        c.update(pts=[[1.1, 0.7], [2.4, 4.0], [0.06, 5.5], [1.9, 2.2]], evec=[0.0, 0.23, 0.05, 0.31], obvec=[0.41, 0.0, 0.0, 0.17],
+                 tauvec=[0.77, 0.0, 1.3, 2.1])
     return c
 
 
@@ -391,13 +418,20 @@ def fixed_cases(tier):
         for static in (False, True):
             out.append(_base(kind=kind, use_static=static))
         out.append(_base(kind=kind, kappa=0.0, spin='sync'))
+    for fam in FAMILIES:                   # array-valued e / obliquity / time with exact zeros at some elements
+        for static in (False, True):
+            out.append(_base(kind='array', family=fam, use_static=static))
+    if tier == 'thorough':                 # the same through the compiled dispatchers (8 further signatures, ~95 s cold)
+        for impl in IMPL:
+            out.append(_base(kind='array', family=IMPL[impl][1], only=impl, path='jit'))
     return out
 
 
 def required_labels(tier):
     return ['kind:' + k for k in KINDS] + ['impl:' + i for i in IMPL] + ['path:py', 'path:py_scalar', 'path:jit',
            'static:on', 'static:off', 'spin:sync', 'spin:anti', 'spin:zero', 'spin:generic', 'e:zero', 'obl:zero',
-           'twoscale:pure_obliquity', 'twoscale:joint', 'colat:near_pole']
+           'twoscale:pure_obliquity', 'twoscale:joint', 'colat:near_pole', 'vec:e_mixed_zero', 'vec:obl_mixed_zero',
+           'vec:time_zero'] + ['array:' + i for i in IMPL]
 
 
 def warm():
@@ -437,16 +471,20 @@ def _norm(D, sc):
     return float(np.max(np.abs(D))) / sc if np.size(D) else 0.0
 
 
-def _check_mode_derivs(c, impl, mode, T, pts, P):
-    """T: (6, 14*npts).  Laplace identity and finite differences for one mode of one implementation."""
+def _check_mode_derivs(c, impl, mode, T, pts, P, per_block=False):
+    """T: (6, 14*npts).  Laplace identity and finite differences for one mode of one implementation.  per_block: the
+    points carry different eccentricities/obliquities, so the magnitude S is taken per point (its own 14-point stencil)."""
     S = float(np.max(np.abs(T)))
     if not np.all(np.isfinite(T)):
         c.fail({'clause': 'finite', 'impl': impl, 'mode': mode}, 'non-finite values returned')
         return
     if P['static'] and IMPL[impl][1] != 'simple':
         S = max(S, P['sc'])
+    static_floor = P['sc'] if (P['static'] and IMPL[impl][1] != 'simple') else 0.0
     for i, (th, ph) in enumerate(pts):
         blk = T[:, 14 * i:14 * i + 14]
+        if per_block:
+            S = max(float(np.max(np.abs(blk))), static_floor)
         U, Ut, Up, Utt, Upp, Utp = (blk[j] for j in range(6))
         TH, PH, cpt = slice(0, 7), slice(7, 14), 3
         s, co = math.sin(th), math.cos(th)
@@ -496,7 +534,7 @@ def _static_part(nonmodal_impl, path, lon, col, tm, P, e=None, ob=None):
     return a - b
 
 
-def _check_modal_sum(c, modal, res_modal, res_nonmodal, path, lon, col, tm, P):
+def _check_modal_sum(c, modal, res_modal, res_nonmodal, path, lon, col, tm, P, e=None, ob=None):
     nonmodal = IMPL[modal][2]
     tot = _total(res_modal)
     ssum = sum(float(np.max(np.abs(T))) for T in res_modal.values())
@@ -511,7 +549,7 @@ def _check_modal_sum(c, modal, res_modal, res_nonmodal, path, lon, col, tm, P):
              % (modal, n_modes, nonmodal, err, ssum, err / ssum if ssum else float('inf'), P['static'])
     if P['static']:
         # is the residual exactly (N-1) copies of the static term?  (known finding) - keep searching behind it
-        stat = _static_part(nonmodal, 'py' if path == 'jit' else path, lon, col, tm, P)
+        stat = _static_part(nonmodal, 'py' if path == 'jit' else path, lon, col, tm, P, e=e, ob=ob)
         err2 = float(np.max(np.abs(tot - (n_modes - 1) * stat - ref)))
         if err2 <= 1e-11 * max(ssum, P['sc']):
             c.fail({'clause': 'modal_sum', 'impl': modal, 'static': True, 'kind': 'static_term_in_every_mode'},
@@ -706,6 +744,74 @@ def _eval_low_e(case, c, P, path):
                     rr, RATIO_2ND, descs)
 
 
+def _eval_array(case, c, P, path):
+    """Array-valued eccentricity / obliquity / time (one value per point, exact zeros at some elements, documented type
+    FloatArray): (a) the array call equals the element-by-element scalar calls; (b) Laplace identity, finite-difference
+    derivatives and modal sum hold per element of the array call; (c) at the elements whose obliquity is exactly 0 the
+    obliquity variants equal the no-obliquity variants called with the same arrays."""
+    pts = [(float(p[0]), float(p[1])) for p in case['pts']]
+    col, lon = _stencil(pts)
+    E = np.repeat(np.asarray(case['evec'], dtype=float), 14)
+    OB = np.repeat(np.asarray(case['obvec'], dtype=float), 14)
+    tm = np.repeat(np.asarray(case['tauvec'], dtype=float), 14) * (2.0 * math.pi / P['n'])
+    sc = P['sc']
+    impls = [case['only']] if case.get('only') else FAMILIES[case['family']]
+    res = {}
+    for impl in impls:
+        c.label('impl:' + impl, 'array:' + impl)
+        res[impl] = _call(impl, path, lon, col, tm, P, e=E, ob=OB)
+        scal = _call(impl, 'py_scalar', lon, col, tm, P, e=E, ob=OB)
+        c.check(set(scal) == set(res[impl]), {'clause': 'array_vs_scalar', 'impl': impl, 'kind': 'keys'},
+                '%s: array call returns modes %s, scalar calls %s' % (impl, sorted(res[impl]), sorted(scal)))
+        for k in scal:
+            if k not in res[impl]:
+                continue
+            S = max(float(np.max(np.abs(scal[k]))), float(np.max(np.abs(res[impl][k]))),
+                    sc if (P['static'] and IMPL[impl][1] != 'simple') else 0.0)
+            dd = np.abs(res[impl][k] - scal[k])
+            d = float(np.max(dd))
+            j = int(np.argmax(np.max(dd, axis=0)))
+            c.check(d <= TOL_VEC * S + ABS_FLOOR, {'clause': 'array_vs_scalar', 'impl': impl, 'mode': k},
+                    '%s[%s]: call with array e=%r obliquity=%r time differs from the element-by-element scalar calls by %.3e '
+                    '(%.2e of the mode magnitude %.3e) at element %d (e=%r, obliquity=%r): array %r scalar %r'
+                    % (impl, k, case['evec'], case['obvec'], d, d / S if S else float('inf'), S, j // 14, float(E[j]), float(OB[j]),
+                       res[impl][k][:, j].tolist(), scal[k][:, j].tolist()))
+        for mode, T in res[impl].items():
+            _check_mode_derivs(c, impl, mode, T, pts, P, per_block=True)
+    for impl in impls:
+        nonmodal = IMPL[impl][2]
+        if nonmodal is not None and nonmodal in res:
+            _check_modal_sum(c, impl, res[impl], res[nonmodal], path, lon, col, tm, P, e=E, ob=OB)
+    # zero-obliquity elements of the obliquity variants vs the no-obliquity variants (same arrays)
+    mask = OB == 0.0
+    fam = IMPL[impls[0]][1]
+    if fam in ('med_obl', 'gen_obl') and np.any(mask):
+        stat = None
+        if P['static']:
+            og = _generic_spin(P)
+            stat = _modal_static(_call('nsr_modes', 'py', lon, col, tm, P, e=E, static=True, o=og),
+                                 _call('nsr_modes', 'py', lon, col, tm, P, e=E, static=False, o=og))[:, mask]
+        for impl in impls:
+            if IMPL[impl][2] is None:      # non-modal
+                base = _total(_call('nsr', 'py', lon, col, tm, P, e=E))
+                d = _norm((_total(res[impl]) - base)[:, mask], sc)
+                c.check(d <= TOL_EXACT, {'clause': 'zero_obl', 'impl': impl, 'kind': 'array_element'},
+                        '%s with obliquity array %r: elements with obliquity 0 differ from nsr by %.3e scale' % (impl, case['obvec'], d))
+            else:
+                base_m = _call('nsr_modes', 'py', lon, col, tm, P, e=E)
+                for k, T in res[impl].items():
+                    Tm = T[:, mask]
+                    if k in base_m:
+                        d = _norm(Tm - base_m[k][:, mask], sc)
+                    else:
+                        d = _norm(Tm, sc)
+                        if stat is not None:
+                            d = min(d, _norm(Tm - stat, sc))
+                    c.check(d <= TOL_EXACT, {'clause': 'zero_obl', 'impl': impl, 'mode': k, 'kind': 'array_element'},
+                            '%s[%s] with obliquity array %r: elements with obliquity 0 differ from nsr_modes by %.3e scale'
+                            % (impl, k, case['obvec'], d))
+
+
 def evaluate(case):
     P = _params(case)
     kind, fam, path = case['kind'], case['family'], case['path']
@@ -713,7 +819,15 @@ def evaluate(case):
         fam = IMPL[case['only']][1]
     uses_obl = (kind == 'derivs' and fam in ('med_obl', 'gen_obl', 'low_e')) or kind == 'low_e'
     uses_spin = not (kind == 'sync' or (kind == 'derivs' and fam == 'simple'))
-    if kind in ('med_gen',):
+    vec_e_mixed = vec_ob_mixed = False
+    if kind == 'array':
+        ev, ov = case['evec'], case['obvec']
+        vec_e_mixed = any(x == 0.0 for x in ev) and any(x > 0.0 for x in ev)
+        vec_ob_mixed = any(x == 0.0 for x in ov) and any(x > 0.0 for x in ov)
+        uses_obl = fam in ('med_obl', 'gen_obl', 'low_e')
+        uses_spin = fam != 'simple'
+        nontrivial = max(ev) > 0.01 and (vec_e_mixed or vec_ob_mixed)
+    elif kind in ('med_gen',):
         nontrivial = True
     elif kind == 'sync':
         nontrivial = float(case['e2']) > 0.01
@@ -731,7 +845,16 @@ def evaluate(case):
         c.label('obl:zero')
     if any(p[0] < 0.15 or p[0] > math.pi - 0.15 for p in case['pts']):
         c.label('colat:near_pole')
-    if kind == 'derivs':
+    if kind == 'array':
+        c.label('family:' + fam)
+        if vec_e_mixed:
+            c.label('vec:e_mixed_zero')
+        if vec_ob_mixed and uses_obl:
+            c.label('vec:obl_mixed_zero')
+        if any(x == 0.0 for x in case['tauvec']):
+            c.label('vec:time_zero')
+        _eval_array(case, c, P, path)
+    elif kind == 'derivs':
         c.label('family:' + fam)
         _eval_derivs(case, c, P, path)
     elif kind == 'zero_obl':
